@@ -16,9 +16,10 @@ REL_NAMES = ("release", "__exit__")
 
 
 class Engine:
-    def __init__(self, sources=None):
+    def __init__(self, sources=None, inline_select=False):
         t = time.time()
-        self.prog = Program(sources)
+        self.prog = Program(sources, inline_select)
+        self._variants = {}
         self.pt = PointsTo(self.prog)
         self.build_time = time.time() - t
         self._edges = None
@@ -26,6 +27,26 @@ class Engine:
         self._held = {}
         self._entry_held = None
         self._anchors = None
+
+    # ----------------------------------------------------------- refinement variants (inline.py)
+    def inline_candidates(self):
+        from .inline import candidates
+        import ast as _ast
+        trees = {m.path: m.tree for m in self.prog.modules.values() if m.name != "__user__"}
+        return candidates(trees, self.prog.sources)
+
+    def variant(self, select):
+        """an Engine over the equivalent program with the given helpers (None = all eligible) inlined; None if nothing was inlined."""
+        key = None if select is None else frozenset(select)
+        if key not in self._variants:
+            try:
+                v = Engine(self.prog.sources, inline_select=(None if select is None else set(select)))
+            except AnalysisError:
+                v = None
+            if v is not None and not v.prog.inlined:
+                v = None
+            self._variants[key] = v
+        return self._variants[key]
 
     # ----------------------------------------------------------- conveniences
     def func(self, q):
